@@ -125,6 +125,12 @@ def eval_spec(st, spec, meshm, nvdim, dtype):
             else:
                 a[idx] = parts["default"][idx]
         return a
+    if t == "fnred":
+        # a function that REDUCES over the coordinates of the point: 1 + max_k |p_k| / u
+        a = np.empty((*n, nvdim), dtype=np.float64)
+        for idx in np.ndindex(*n):
+            a[idx] = 1.0 + max(abs(float(c)) for c in meshm.centre_of(idx)) / spec["u"]
+        return a
     if t == "arrayof":
         return np.array(st.h[spec["src"]].fm.array, copy=True)
     if t == "field":
@@ -157,6 +163,9 @@ def lib_spec(st, spec, meshm, nvdim, dtype, fns):
         return f
     if t == "dict":
         return {k: lib_spec(st, v, meshm, nvdim, dtype, fns) for k, v in spec["d"].items()}
+    if t == "fnred":
+        u = spec["u"]
+        return lambda p: 1.0 + np.max(np.abs(p)) / u  # works for a point and (differently!) for arrays of coordinates
     if t == "field":
         return st.h[spec["src"]].obj
     if t == "arrayof":
@@ -250,6 +259,12 @@ def op_construct(st, o):
     if o.get("norm") is None:
         _scribble(st, kw["value"], spec, obj, want, "Field(...)")
     st.stats.oracle("value")
+    if o.get("norm") is not None and o["norm"]["t"] == "fnred":
+        # the norm depends on the float cell centres: compared to 1e-12, then the library's rounding is adopted
+        got = np.asarray(obj.array)
+        if got.shape != want.shape or not np.all(np.abs(got - want) <= 1e-12 * np.abs(want)):
+            raise Violation("norm.length", "Field(..., norm=<function reducing over the point>): lengths differ from the function evaluated at the cell centres", kind="value")
+        want = np.array(got, copy=True)
     vdims = o.get("vdims") or default_vdims(nvdim)
     pred = {"array": want, "valid": valid, "vdims": vdims, "mapping": default_mapping(nvdim, vdims, mm.region.dims), "unit": o.get("unit"), "nvdim": nvdim}
     h = new_field(st, o["out"], obj, mh.box, pred, meta={"dtype": dtype})
